@@ -101,7 +101,7 @@ def run(chk):
     if not ok:
         handle_broken(chk)
 
-    n_base = 420 if quick else 12000
+    n_base = 420 if quick else 5000
     bases = []
     for _ in range(n_base):
         name, hint = rng.choice(NAMES)
@@ -127,8 +127,8 @@ def run(chk):
         variants = [("base", ovs, inner)]
         idx = list(range(len(ovs)))
         if len(ovs) > 1:
-            perms = list(itertools.permutations(idx)) if len(ovs) <= (3 if quick else 5) else \
-                [tuple(rng.sample(idx, len(idx))) for _ in range(6)]
+            perms = list(itertools.permutations(idx)) if len(ovs) <= (3 if quick else 4) else \
+                [tuple(rng.sample(idx, len(idx))) for _ in range(6 if quick else 24)]
             if quick and len(perms) > 4:
                 perms = rng.sample(perms, 4)
             for p in perms:
